@@ -214,7 +214,8 @@ def get_query_argument(url, key):
         return None
 
     for q in safe_qsl_iter(o.query):
-        if key == q[0]:
+        # NOTE: add_query_argument quotes the name it writes
+        if key == q[0] or key == unquote(q[0]):
             if q[1] is None:
                 return True
             return q[1]
